@@ -174,6 +174,41 @@ CORPUS = [(list(k), 0, 0, None) for k in FORCE_DTYPE] + [([5 * 2, 11, 11, 0], 1,
           ([3, 0, 3, 0], 0, 5, [1, 2])]
 
 
+def narrow_dtype_events(res, rng, k):
+    """histories that fill a narrow integer dtype, given as arrays of that dtype (the values fit, their differences and the level grid built
+    from them need not): level crossings and peaks must be those of the same numbers as floats — levels given explicitly (a default unit
+    grid over 60000 counts is only slow)"""
+    import numpy as np
+    core.import_impl()
+    from ffpack import lcc
+    for _ in range(k):
+        dt, lo, hi = rng.choice([(np.int8, -120, 120), (np.uint8, 0, 250), (np.int16, -30000, 30000), (np.uint16, 0, 60000)])
+        n = rng.choice([3, 4, 6, 9])
+        g = max(1, (hi - lo) // rng.choice([4, 6, 10]))
+        h = [lo + rng.randrange(0, (hi - lo) // g + 1) * g for _ in range(n)]
+        h[rng.randrange(n)] = hi
+        h[rng.randrange(n)] = lo
+        if len(set(h)) < 2:
+            continue
+        levels = sorted({lo + g * j + g // 2 for j in range((hi - lo) // g)})
+        ref = rng.choice([0, lo, (lo + hi) // 2])
+        outs = {}
+        for label, data in (('float', [float(v) for v in h]), (dt.__name__, np.array(h, dtype=dt))):
+            try:
+                outs[label] = [lcc.astmLevelCrossingCounting(data, refLevel=float(ref), levels=[float(v) for v in levels], aggregate=agg) for agg in (True, False)] + \
+                              [lcc.astmPeakCounting(data, refLevel=float(ref), aggregate=agg) for agg in (True, False)]
+                outs[label] = json.loads(json.dumps(outs[label], default=float))
+            except Exception as e:  # noqa
+                outs[label] = 'raised ' + type(e).__name__ + ': ' + str(e)[:80]
+        res.evaluations += 1
+        res.stat('narrow_dtype_' + dt.__name__)
+        if outs['float'] != outs[dt.__name__]:
+            res.failures.append({'signature': f'C05:narrow-dtype:{dt.__name__}:{enc_list(h)}:{ref}',
+                                 'clause': 'level crossings / peaks of a %s array differ from those of the same numbers as floats' % dt.__name__,
+                                 'api': 'astmLevelCrossingCounting / astmPeakCounting', 'input': h, 'dtype': dt.__name__, 'refLevel': ref, 'levels': levels,
+                                 'impl_output': {k2: (v if isinstance(v, str) else str(v)[:300]) for k2, v in outs.items()}})
+
+
 def run(tier, seed):
     res = core.Result(PID, tier, seed)
     res.rule = ('random histories on 2^-s grids (s up to 3, plus near-tie grids s = 24, 30 with samples a few grid steps off a level) spanning a few integer levels x reference level (0, far, equal to a sample, '
@@ -183,6 +218,7 @@ def run(tier, seed):
     rng = random.Random(seed)
     n = 2500 if tier == 'quick' else 60000
     explore(res, rng, n, CORPUS)
+    narrow_dtype_events(res, rng, 40 if tier == 'quick' else 600)
     if (res.proof_problems or res.disagreements) and not [f for f in res.failures if 'timeorder' not in f['signature']]:
         explore(res, random.Random(seed + 7919), 4 * n)
     res.disagreements_checked = res.traces
